@@ -283,3 +283,125 @@ func VerifC08Envelope() {
 	}
 	vCover("done")
 }
+
+// c08BlockHas: block i of the token (0 = authority), resolved through the token's own symbols, holds
+// exactly the expected facts in order.
+func c08BlockHas(t *Biscuit, i int, want []Fact) bool {
+	all, ok := c08Facts(t)
+	if !ok || i >= len(all) || len(all[i]) != len(want) {
+		return false
+	}
+	r := true
+	for j := range want {
+		r = vAnd(r, gFactEq(all[i][j], want[j]))
+	}
+	return r
+}
+
+// VerifC08BuilderReuse: a builder that is used again after Build -- filled further, built a second time,
+// or whose block is appended after a sibling's -- never changes what was built before, and whatever it
+// builds without reporting an error contains exactly what its caller put in (in memory and on the wire).
+func VerifC08BuilderReuse() {
+	vForbidPanic("C08")
+	vTimerMode(0)
+	rng := &chainRNG{}
+	root := ed25519Key(vWide("root", 32))
+	f1 := Fact{Predicate{Name: gNameFree("first.name"), IDs: []Term{String("x1"), Integer(vInt64("first.c"))}}}
+	f2 := Fact{Predicate{Name: gNameFree("second.name"), IDs: []Term{String("x2"), Integer(vInt64("second.c"))}}}
+	variant := vChoose("reuse", 3)
+	vLabel([...]string{"build twice", "build, add, build", "sibling blocks appended in sequence"}[variant])
+	if vChoose("builder", 2) == 0 && variant < 2 {
+		vLabel("token builder")
+		b := NewBuilder(root, WithRNG(rng))
+		vAssert(b.AddAuthorityFact(f1) == nil, "C08.reuse.add")
+		tok1, err := b.Build()
+		vAssert(err == nil, "C08.reuse.build")
+		if err != nil {
+			return
+		}
+		vAssert(c08BlockHas(tok1, 0, []Fact{f1}), "C08.reuse.first-content")
+		snap := c08Take(tok1, "first-built-token")
+		want := []Fact{f1}
+		if variant == 1 {
+			// the two facts differ in their string: the second is new, whatever the names
+			if b.AddAuthorityFact(f2) == nil {
+				want = append(want, f2)
+			} else {
+				vCover("refused")
+			}
+			vAssert(snap.same(), "C08.reuse.unchanged-by-add")
+		}
+		tok2, err2 := b.Build()
+		vAssert(snap.same(), "C08.reuse.unchanged-by-build")
+		vCover("reused")
+		if err2 != nil {
+			vCover("refused")
+			return
+		}
+		vAssert(c08BlockHas(tok2, 0, want), "C08.reuse.second-content")
+		vAssert(c08BlockHas(c16Reload(tok2), 0, want), "C08.reuse.second-content-on-wire")
+		vAssert(c08BlockHas(c16Reload(tok1), 0, []Fact{f1}), "C08.reuse.first-content-on-wire")
+		return
+	}
+	vLabel("block builder")
+	// a parent whose table already holds fresh symbols
+	pb := NewBuilder(root, WithRNG(rng))
+	pf := Fact{Predicate{Name: "owner", IDs: []Term{String("file1"), String("file2")}}}
+	pb.AddAuthorityFact(pf)
+	parent, err := pb.Build()
+	vAssert(err == nil, "C08.reuse.build")
+	if err != nil {
+		return
+	}
+	psnap := c08Take(parent, "parent")
+	if variant == 2 {
+		// two builders taken from the same parent; the second block is appended to the first child
+		bbA, bbB := parent.CreateBlock(), parent.CreateBlock()
+		vAssert(bbA.AddFact(f1) == nil && bbB.AddFact(f2) == nil, "C08.reuse.add")
+		t1, e1 := parent.Append(rng, bbA.Build())
+		vAssert(e1 == nil, "C08.reuse.append")
+		if e1 != nil {
+			return
+		}
+		s1 := c08Take(t1, "first-child")
+		t2, e2 := t1.Append(rng, bbB.Build())
+		vCover("reused")
+		vAssert(psnap.same(), "C08.reuse.unchanged-parent")
+		vAssert(s1.same(), "C08.reuse.unchanged-first-child")
+		if e2 != nil {
+			vCover("refused")
+			return
+		}
+		vAssert(c08BlockHas(t2, 1, []Fact{f1}), "C08.reuse.chained-first-block")
+		vAssert(c08BlockHas(t2, 2, []Fact{f2}), "C08.reuse.chained-second-block")
+		vAssert(c08BlockHas(c16Reload(t2), 2, []Fact{f2}), "C08.reuse.chained-second-block-on-wire")
+		return
+	}
+	bb := parent.CreateBlock()
+	vAssert(bb.AddFact(f1) == nil, "C08.reuse.add")
+	blk1 := bb.Build()
+	want := []Fact{f1}
+	if variant == 1 {
+		if bb.AddFact(f2) == nil {
+			want = append(want, f2)
+		} else {
+			vCover("refused")
+		}
+	}
+	blk2 := bb.Build()
+	vCover("reused")
+	c1, e1 := parent.Append(rng, blk1)
+	c2, e2 := parent.Append(rng, blk2)
+	vAssert(e1 == nil, "C08.reuse.append")
+	vAssert(psnap.same(), "C08.reuse.unchanged-parent")
+	if e1 == nil {
+		vAssert(c08BlockHas(c1, 1, []Fact{f1}), "C08.reuse.first-content")
+		vAssert(c08BlockHas(c16Reload(c1), 1, []Fact{f1}), "C08.reuse.first-content-on-wire")
+	}
+	if e2 != nil {
+		vCover("refused")
+		return
+	}
+	vAssert(c08BlockHas(c2, 1, want), "C08.reuse.second-content")
+	vAssert(c08BlockHas(c16Reload(c2), 1, want), "C08.reuse.second-content-on-wire")
+}
